@@ -1,5 +1,6 @@
 import Driver.Conv
 import Driver.PtrEng
+import Driver.RangeEng
 /-! `rlbox_model_driver`: one operation per line on stdin, one result per line on stdout. -/
 open Driver
 
@@ -9,6 +10,9 @@ def stepLine (line : String) : String :=
   | some r => r
   | none =>
   match PtrEng.step t with
+  | some r => r
+  | none =>
+  match RangeEng.step t with
   | some r => r
   | none => "badop"
 
